@@ -116,6 +116,10 @@ pub trait MacroApi {
         #[query(name = "ls", encoder = DisplaySeqEncoder)] ls: &[String],
     ) -> Result<String, Error>;
 
+    /// an optional return value through the macro's response deserializer
+    #[endpoint(method = GET, path = "/m/optret", accept = ConjureResponseDeserializer)]
+    fn opt_ret(&self) -> Result<Option<String>, Error>;
+
     /// a list-valued path parameter (server side: regex segment, one element per raw segment)
     #[endpoint(method = GET, path = "/m/ids/{ids}", accept = ConjureResponseDeserializer)]
     fn ids_path(&self, #[path] ids: i32) -> Result<String, Error>;
@@ -191,6 +195,10 @@ pub trait AsyncMacroApi {
         #[header(name = "X-H1")] h: &Echo,
         #[query(name = "ls", encoder = DisplaySeqEncoder)] ls: &[String],
     ) -> Result<String, Error>;
+
+    /// an optional return value through the macro's response deserializer
+    #[endpoint(method = GET, path = "/m/optret", accept = ConjureResponseDeserializer)]
+    async fn opt_ret(&self) -> Result<Option<String>, Error>;
 
     /// a list-valued path parameter (server side: regex segment, one element per raw segment)
     #[endpoint(method = GET, path = "/m/ids/{ids}", accept = ConjureResponseDeserializer)]
@@ -269,6 +277,9 @@ macro_rules! macro_endpoints {
                 #[query(name = "ls", decoder = FromStrSeqDecoder<_>)] ls: Vec<String>,
             ) -> Result<String, Error>;
 
+            #[endpoint(method = GET, path = "/m/optret", produces = StdResponseSerializer)]
+            $($asyncness)? fn opt_ret(&self) -> Result<Option<String>, Error>;
+
             #[endpoint(method = GET, path = "/m/ids/{ids:.*}", produces = StdResponseSerializer)]
             $($asyncness)? fn ids_path(&self, #[path(name = "ids", decoder = FromStrSeqDecoder<_>)] ids: Vec<i32>) -> Result<String, Error>;
         }
@@ -321,6 +332,10 @@ macro_rules! macro_handler {
                 self.rec.lock().unwrap().calls.push(json!({"endpoint": "attrs", "args": {"b": a.0, "bee": b.0, "sea": c, "pq": q.0, "hh": h.0, "ls": ls}}));
                 conjure_serde::json::client_from_str(&self.ret.to_string()).map_err(Error::internal_safe)
             }
+            $($asyncness)? fn opt_ret(&self) -> Result<Option<String>, Error> {
+                self.rec.lock().unwrap().calls.push(json!({"endpoint": "optRet", "args": {}}));
+                conjure_serde::json::client_from_str(&self.ret.to_string()).map_err(Error::internal_safe)
+            }
             $($asyncness)? fn ids_path(&self, ids: Vec<i32>) -> Result<String, Error> {
                 self.rec.lock().unwrap().calls.push(json!({"endpoint": "idsPath", "args": {"ids": ids}}));
                 conjure_serde::json::client_from_str(&self.ret.to_string()).map_err(Error::internal_safe)
@@ -369,6 +384,7 @@ macro_rules! mac_calls {
                 "names" => $w!(c.names(arg(args, "type")?, arg(args, "fooBar")?, arg(args, "async")?, arg(args, "camelCase")?, arg(args, "self")?,
                     &arg::<Vec<i32>>(args, "snake_arg")?, arg(args, "match")?)).map(|v| json!(v)),
                 "idsPath" => $w!(c.ids_path(arg(args, "ids")?)).map(|v| json!(v)),
+                "optRet" => $w!(c.opt_ret()).map(|v| json!(v)),
                 "attrs" => {
                     let e = |n: &str| -> Result<Echo, String> { Ok(Echo(arg::<String>(args, n)?)) };
                     $w!(c.attrs(&e("b")?, &e("bee")?, arg(args, "sea")?, &e("pq")?, &e("hh")?, &arg::<Vec<String>>(args, "ls")?)).map(|v| json!(v))
